@@ -222,7 +222,9 @@ def merge(outer, inner):
     if inner is None:
         return outer
     t = {"value": outer["value"] if outer["value"] is not None else inner["value"], "sub": {},
-         "nested": outer.get("nested") or inner.get("nested")}
+         "nested": outer.get("nested") or inner.get("nested"),
+         "dotted_any": bool(outer.get("dotted_any") or inner.get("dotted_any")
+                            or any(v is not None and v[2] for v in (outer["value"], inner["value"])))}
     for k in list(inner["sub"]) + [k for k in outer["sub"] if k not in inner["sub"]]:
         t["sub"][k] = merge(outer["sub"].get(k), inner["sub"].get(k))
     return t
@@ -319,7 +321,7 @@ def reference(lib):
                         raise Reject("modification of unknown attribute %s of %s" % (a, flat))
                     if sub["value"] is not None:
                         pending.append(("attr", (flat, a), sub["value"][0], sub["value"][1]))
-                        if sub["value"][2]:
+                        if sub["value"][2] or sub.get("dotted_any"):
                             flags["dotted_attr"].append(flat)
                         if sub["value"][1] is not None and sub["value"][1] != prefix:
                             heads = [x[1][0] for x in raw_refs(sub["value"][0], [])]
@@ -558,7 +560,9 @@ def judge_all(lib, res):
         why = "flatten failed on a valid library: %s: %s" % (exc, str(res.get("msg", res))[:160].replace("\n", " / "))
         if exc == "IndexError" and fl["nested_spelling"]:
             return []            # nested spelling through a structured component is rejected: allowed
-        if exc == "ClassNotFoundError" and fl["shadow_paths"]:
+        if fl["shadow_paths"]:
+            # the wrongly resolved class is missing (ClassNotFoundError), lacks the modified element
+            # (ModificationTargetNotFound), is an alias instead of a model or vice versa (Exception / IndexError)
             return [(KNOWN_SHADOW, why)]
         if exc == "IndexError" and fl["pre_alias"]:
             return [(KNOWN_PRE, why)]
@@ -568,7 +572,8 @@ def judge_all(lib, res):
         where, msg = d[0], d[1]
         involved = [where] + (list(d[2]) if len(d) > 2 else [])
         sparents = [".".join(x.split(".")[:-1]) for x in fl["shadow_paths"]]
-        if any(under(w, fl["shadow_paths"]) for w in involved) or \
+        if any(under(w, fl["shadow_paths"]) for w in involved) or (fl["shadow_paths"] and ("un-flattened" in msg or "no flat variable" in msg
+                                      or any(w not in ref["vars"] for w in involved[1:]))) or \
                 (len(d) > 2 and any(q == "" or any(under(w, [q]) for w in involved) for q in sparents)):
             # the shadowed component itself, or an equation of the instance that declares it
             tag = KNOWN_SHADOW
